@@ -40,6 +40,10 @@ DOCS = {
     'quote-setext': '> quote\n\nTitle\n===\n\n> Title\n> ===\n',
     'tight-list': '- a\n- b `c`\n\n> q\n\npara\n',
     'latex-packages': '~~s~~ ![i](/s)\n\n| a |\n|---|\n| b |\n',
+    'table-probe-code': 'para\n    x | y\n    ---|---\n    1 | 2\n',
+    'table-probe-html': '<a title="|">\n---|---\n1 | 2\n',
+    'table-line2': 'head\nq | r\n:-:|--:\ns | t\nu | v\n',
+    'toc-def': '# t\n\n## [l]: /leak\n\n## [r]: </leak2> "x"\n',
     'toc-ref': '# t\n\n## [l] x\n\n## y [r]\n',
     'ext': '$x$ [[a|b]] {{m}}\ntext\n{{/m}}\n\n- item\n  > q `c`\n',
 }
@@ -50,7 +54,7 @@ RENDER_CONFIGS = [
 QUICK_CONFIGS = [('Html', {}), ('Markdown', {}), ('LaTeX', {}), ('XWiki20', {})]
 QUICK_EXTRA_CONFIGS = [('Toc', {}), ('Pygments', {}), ('Pygments', {'style': 'monokai'})]
 QUICK_DOCS = ['code', 'setext', 'custom-tag', 'html-interrupt', 'quote-setext', 'empty-atx', 'entity-def', 'entity-inline']
-QUICK_EXTRA_DOCS = ['toc-ref', 'fence', 'tight-list']
+QUICK_EXTRA_DOCS = ['toc-ref', 'fence', 'tight-list', 'toc-def', 'table-probe-code', 'table-probe-html', 'table-line2']
 
 
 SUBCLASS_DOCS = ['html', 'fence', 'atx', 'custom-tag', 'html-interrupt']
@@ -149,7 +153,7 @@ try:
     elif job['kind'] == 'bare':
         out['value'] = json.dumps(tree.canon(mt.Document(c11.DOCS[job['doc']]), lines=True), sort_keys=True, default=repr)
     elif job['kind'] == 'scheme':
-        out['value'] = repr(c11.scheme_session())
+        out['value'] = repr(c11.scheme_session(job.get('program', 'define-and-use')))
     elif job['kind'] == 'toc':
         out['value'] = c11.toc_value(c11.DOCS[job['doc']], None)
     elif job['kind'] == 'subclass':
@@ -275,6 +279,8 @@ def all_jobs(tier):
             jobs.append({'kind': 'render', 'doc': d, 'renderer': r, 'opts': o})
         jobs.append({'kind': 'bare', 'doc': d})
     jobs.append({'kind': 'scheme'})
+    for prog in SCHEME_PROGRAMS:
+        jobs.append({'kind': 'scheme', 'program': prog})
     jobs.append({'kind': 'toc', 'doc': 'toc-ref'})
     for d in SUBCLASS_DOCS:
         jobs.append({'kind': 'subclass', 'doc': d})
@@ -354,10 +360,18 @@ def fresh(job):
 
 # ---- executing steps -----------------------------------------------------------------------------
 
-def scheme_session():
+SCHEME_PROGRAMS = {
+    'define-and-use': ['(define x 40)', '(+ x 2)'],
+    'use-only': ['(+ x 2)'],                       # x is not defined here: an error, unless an earlier session leaked it
+    'redefine-constant': ['(define false true)', '(if false 1 2)'],
+    'constant': ['(if false 1 2)'],
+}
+
+
+def scheme_session(program='define-and-use'):
     from mistletoe.contrib.scheme import Scheme, Program
     with Scheme() as r:
-        return r.render(Program(['(define x 40)', '(+ x 2)']))
+        return r.render(Program(list(SCHEME_PROGRAMS[program])))
 
 
 def run_step(step):
@@ -380,10 +394,10 @@ def run_step(step):
         obs.append(({'kind': 'bare', 'doc': step['doc']}, val))
     elif kind == 'scheme':
         try:
-            val = repr(scheme_session())
+            val = repr(scheme_session(step.get('program', 'define-and-use')))
         except Exception as e:  # noqa
             val = 'EXC ' + type(e).__name__
-        obs.append(({'kind': 'scheme'}, val))
+        obs.append(({'kind': 'scheme', 'program': step['program']} if 'program' in step else {'kind': 'scheme'}, val))
         obs.append(('reset', defaults_ok()))
     elif kind == 'fault':
         F, module = fault_token(step['fault'])
@@ -627,6 +641,8 @@ def step_name(s):
     if s['kind'] == 'fault':
         return 'fault(%s@%s,%s,%s%s%s)' % (s['fault'], s['pos'], s['place'], s['renderer'] or 'bare', '-no-html-tokens' if s['opts'] else '',
                                            ',caught' if s.get('caught') else '')
+    if s['kind'] == 'scheme' and 'program' in s:
+        return 'scheme(%s)' % s['program']
     return s['kind']
 
 
@@ -648,6 +664,8 @@ def quick_extra_alphabet():
     for r, o in QUICK_CONFIGS[:1]:
         for d in QUICK_EXTRA_DOCS:
             steps.append({'kind': 'render', 'renderer': r, 'opts': o, 'doc': d})
+    for prog in SCHEME_PROGRAMS:
+        steps.append({'kind': 'scheme', 'program': prog})
     steps.append({'kind': 'toc-after-abort', 'fault': 'span-find', 'pos': 5, 'place': 'top'})
     steps.append({'kind': 'toc-after-abort', 'fault': 'block-start', 'pos': 0, 'place': 'quote-later'})
     steps.append({'kind': 'subclass', 'doc': 'html'})
@@ -686,6 +704,8 @@ def full_alphabet():
     for d in DOCS:
         steps.append({'kind': 'bare', 'doc': d})
     steps.append({'kind': 'scheme'})
+    for prog in SCHEME_PROGRAMS:
+        steps.append({'kind': 'scheme', 'program': prog})
     steps.append({'kind': 'deep'})
     for d in SUBCLASS_DOCS:
         steps.append({'kind': 'subclass', 'doc': d})
